@@ -22,6 +22,35 @@ use crate::plan::{Op, Outcome, Plan, Stats, Violation};
 use crate::prng::{mix, Digest, Rng};
 use crate::{set_phase, Tier};
 
+/// The write end of the pipe that has replaced this process's standard input (0 = not installed).
+static STDIN_PIPE_WR: AtomicUsize = AtomicUsize::new(0);
+
+/// Delivers one line to the engine's real stdin reader (`input_handler::parse_player_move_input`,
+/// which classifies the line with its two patterns before it reaches the game): fd 0 of this
+/// process is replaced, once, by the read end of a pipe the simulator writes to.
+fn through_real_stdin(line: &str) -> Result<Box<dyn Command>, String> {
+    if STDIN_PIPE_WR.load(Ordering::SeqCst) == 0 {
+        let mut fds = [0i32; 2];
+        // SAFETY: plain POSIX calls on descriptors this process owns
+        unsafe {
+            if libc::pipe(fds.as_mut_ptr()) != 0 || libc::dup2(fds[0], 0) < 0 {
+                return Err("cannot install the stdin pipe".into());
+            }
+            libc::close(fds[0]);
+        }
+        STDIN_PIPE_WR.store(fds[1] as usize, Ordering::SeqCst);
+    }
+    let fd = STDIN_PIPE_WR.load(Ordering::SeqCst) as i32;
+    let mut data = line.as_bytes().to_vec();
+    data.push(b'\n');
+    // SAFETY: writing a short line (far below the pipe capacity) to our own pipe
+    let n = unsafe { libc::write(fd, data.as_ptr() as *const libc::c_void, data.len()) };
+    if n != data.len() as isize {
+        return Err("short write to the stdin pipe".into());
+    }
+    chess::input_handler::parse_player_move_input().map_err(|e| format!("{}", e))
+}
+
 static FORCED_CHOICE: AtomicUsize = AtomicUsize::new(usize::MAX);
 static CHOICES_FORCED: AtomicUsize = AtomicUsize::new(0);
 
@@ -220,6 +249,7 @@ pub fn gen_plan(property: &str, seed: u64, index: u64, tier: Tier) -> Plan {
             if thorough && rng.chance(1, 4) {
                 knobs.insert("all_pairs".into(), 1);
             }
+            knobs.insert("via_stdin".into(), rng.chance(1, 2) as i64);
         }
         "C15" => {
             if index == 0 {
@@ -610,12 +640,38 @@ pub fn exec(plan: &Plan) -> Outcome {
                     Op::Typed(text) => {
                         stats.bump("op-typed");
                         let labels: Vec<String> = legal.iter().map(|m| san(&pos, m, &legal)).collect();
-                        let exact: Vec<Mv> = legal.iter().zip(labels.iter()).filter(|(_, l)| *l == text).map(|(m, _)| *m).collect();
-                        let readings: Vec<Mv> = legal.iter().filter(|m| san_lenient_matches(&pos, m, text)).copied().collect();
+                        let mut exact: Vec<Mv> = legal.iter().zip(labels.iter()).filter(|(_, l)| *l == text).map(|(m, _)| *m).collect();
+                        let mut readings: Vec<Mv> = legal.iter().filter(|m| san_lenient_matches(&pos, m, text)).copied().collect();
+                        // through the stdin reader a text of the shape "e2e4" is a coordinate pair
+                        let as_pair = if plan.knob("via_stdin", 0) == 1 && text.len() == 4 {
+                            match (parse_sq(&text[0..2]), parse_sq(&text[2..4])) {
+                                (Some(f), Some(t)) => Some((f, t)),
+                                _ => None,
+                            }
+                        } else {
+                            None
+                        };
+                        if let Some((f, t)) = as_pair {
+                            let cands: Vec<Mv> = legal.iter().filter(|m| m.from == f && m.to == t).copied().collect();
+                            exact = cands.iter().filter(|m| m.promo.is_none() || m.promo == Some(P::Queen)).copied().collect();
+                            readings = exact.clone();
+                        }
                         let must_accept = if exact.len() == 1 { Some(exact[0]) } else { None };
                         let must_reject = readings.is_empty() && exact.is_empty();
-                        let cmd = MakeMove::Algebraic { algebraic: text.clone() };
-                        let r = cmd.execute(&mut game).map_err(|e| format!("{:?}", e));
+                        // half of the runs deliver the text through the engine's real stdin reader (its
+                        // coordinate / notation patterns decide what reaches the game); a line the reader
+                        // refuses is a rejection like any other
+                        let printable = !text.is_empty() && text.chars().all(|c| c.is_ascii_graphic());
+                        let r = if plan.knob("via_stdin", 0) == 1 && printable {
+                            stats.bump("fault/delivered-through-real-stdin-reader");
+                            match through_real_stdin(text) {
+                                Ok(cmd) => cmd.execute(&mut game).map_err(|e| format!("{:?}", e)),
+                                Err(e) => Err(e),
+                            }
+                        } else {
+                            let cmd = MakeMove::Algebraic { algebraic: text.clone() };
+                            cmd.execute(&mut game).map_err(|e| format!("{:?}", e))
+                        };
                         (r, must_accept, must_reject, if exact.len() == 1 { exact } else { readings })
                     }
                     Op::Coord(f, t) => {
